@@ -511,6 +511,44 @@ def common_rewrites(ctx, sf, a, b, item_kind, opts):
                 ctx.fire("N4r", sf, t.start)
                 k = call_open + 4
                 continue
+        # N19: `(A..=B).contains(&X)` -> `(A <= X && X <= B)`, `(A..B).contains(&X)` -> `(A <= X && X < B)` (RangeInclusive / Range::contains on
+        # integers, their definition in std; Verus has no specification for them). X is evaluated twice: only simple paths are rewritten.
+        if t.text == "(" and pair.get(k) is not None and not opts.get("no_n19"):
+            c_ = pair[k]
+            if c_ + 6 < len(toks) and toks[c_ + 1].text == "." and toks[c_ + 2].text == "contains" and toks[c_ + 3].text == "(" \
+                    and toks[c_ + 4].text == "&" and toks[k - 1].kind != "id":
+                x_lo, x_hi = c_ + 5, pair[c_ + 3]
+                simple = all(tk.kind in ("id", "num") or tk.text in (".", "::", "as") for tk in toks[x_lo:x_hi]) and x_hi > x_lo
+                d_, dots = k + 1, []
+                while d_ < c_:
+                    if toks[d_].text in ("(", "[", "{"):
+                        d_ = pair[d_] + 1
+                        continue
+                    if toks[d_].text in ("..", "..="):
+                        dots.append(d_)
+                    d_ += 1
+                if simple and len(dots) == 1 and dots[0] > k + 1 and dots[0] < c_ - 1:
+                    A_ = sf.text[toks[k + 1].start:toks[dots[0] - 1].end]
+                    B_ = sf.text[toks[dots[0] + 1].start:toks[c_ - 1].end]
+                    X_ = sf.text[toks[x_lo].start:toks[x_hi - 1].end]
+                    cmp_ = "<=" if toks[dots[0]].text == "..=" else "<"
+                    # three small edits that leave the bound expressions A and B in place (other rules still apply inside them)
+                    edits.append(Edit(t.start, t.end, "(("))
+                    edits.append(Edit(toks[dots[0]].start, toks[dots[0]].end, f") <= ({X_}) && ({X_}) {cmp_} ("))
+                    edits.append(Edit(toks[c_].start, toks[x_hi].end, "))"))
+                    ctx.fire("N19", sf, t.start, f"({A_}{toks[dots[0]].text}{B_}).contains(&{X_})")
+                    k += 1
+                    continue
+        # N14 (qualified form): `std::cmp::min(a, b)` / `cmp::min(a, b)` / `core::cmp::max(a, b)` -> Ord::min(a, b)
+        if t.kind == "id" and t.text in ("std", "core", "cmp") and toks[k - 1].text != "::" and not opts.get("no_n14"):
+            q_ = k
+            if toks[q_].text in ("std", "core") and toks[q_ + 1].text == "::" and toks[q_ + 2].text == "cmp":
+                q_ += 2
+            if toks[q_].text == "cmp" and toks[q_ + 1].text == "::" and toks[q_ + 2].text in ("min", "max") and toks[q_ + 3].text == "(":
+                edits.append(Edit(t.start, toks[q_ + 2].end, "Ord::" + toks[q_ + 2].text))
+                ctx.fire("N14", sf, t.start, "qualified " + toks[q_ + 2].text)
+                k = q_ + 3
+                continue
         # N14: std::cmp::{min,max}(a, b) free functions -> Ord::{min,max}(a, b) (their definition in std)
         if t.kind == "id" and t.text in ("min", "max") and toks[k + 1].text == "(" and toks[k - 1].text not in (".", "::", "fn") \
                 and not opts.get("no_n14"):
